@@ -29,11 +29,7 @@ theorem mapM_except_mem_rev {α β : Type} (f : α → Except Err β) (l : List 
 theorem createBB_nonempty (ins : List Ins) (nexts : List (List Nat)) : 0 < (createBB ins nexts).1.length := by
   unfold createBB; simp
 
-/-- the graph the subroutine discovery of `parseTeal` runs on -/
-def graphOf (ins : List Ins) (nexts : List (List Nat)) : Except Err (List RawBlock) :=
-  fourthPass (createBB ins nexts).1 nexts
-    ((createBB ins nexts).2.foldl (fun bs (e : Nat × Nat) => addEdge bs e.1 e.2)
-      ((createBB ins nexts).1.map fun b => ({ ins := b } : RawBlock)))
+export Tealer.CfgWF (graphOf)
 
 theorem parse_blocks_closure (ins : List Ins) (t : Teal) (h : parseTeal ins = .ok t) :
     ∃ nexts bs, insNext ins = .ok nexts ∧ graphOf ins nexts = .ok bs ∧ WF bs ∧
